@@ -42,7 +42,7 @@ use std::sync::atomic::{AtomicU64, Ordering};
 // ------------------------------------------------------------------------------------------
 
 /// Line alphabet (every line is written with a terminating `\n`).
-const LINES: [&str; 13] = [
+const LINES: [&str; 14] = [
     "a",                            // 0
     "b",                            // 1
     "",                             // 2  empty line
@@ -56,10 +56,11 @@ const LINES: [&str; 13] = [
     "a ",                           // 10 trailing blank
     "-- a/f",                       // 11 becomes `--- a/f` when deleted
     "++ b/f",                       // 12 becomes `+++ b/f` when added
+    "a\r",                          // 13 line of a CRLF file (the carriage return is content)
 ];
-const FULL: &[u8] = &[0, 1, 2, 3, 4, 5, 6, 7, 8, 9, 10, 11, 12];
-const A9: &[u8] = &[0, 1, 2, 3, 5, 8, 9, 10, 11];
-const A6: &[u8] = &[0, 1, 2, 5, 10, 11];
+const FULL: &[u8] = &[0, 1, 2, 3, 4, 5, 6, 7, 8, 9, 10, 11, 12, 13];
+const A9: &[u8] = &[0, 1, 2, 3, 5, 8, 9, 10, 11, 13];
+const A6: &[u8] = &[0, 1, 2, 5, 10, 11, 13];
 const A4: &[u8] = &[0, 1, 10, 11];
 const A2: &[u8] = &[0, 3];
 
